@@ -79,7 +79,7 @@ impl WriteSource for pr::TyTupleField {
                 if let Some(expr) = expr {
                     r += &expr.write(opt)?;
                 } else {
-                    r += "?";
+                    r += "*";
                 }
                 Some(r)
             }
